@@ -23,6 +23,7 @@ pub struct World {
 }
 
 #[derive(Debug, Clone)]
+#[allow(dead_code)]
 pub enum Outcome {
     Parse(String),
     Refused { code: String, message: String },
